@@ -341,6 +341,8 @@ func (h *shandler) Generate(p *csr.ReqParam) ([]csr.AgentKey, error) {
 		return nil, gensign.NewError(kindByName[f[1]], "scripted", errors.New("x"))
 	case "gpanic":
 		panic("generate panic")
+	case "gcpanic": // generates a key whose CSRs() panics
+		return []csr.AgentKey{&skey{addErr: "-", csrsPanic: true, idx: h.idx}}, nil
 	case "gempty":
 		return nil, nil
 	case "gkey", "gkeyn": // gkeyn: authenticates and generates, but its Name() panics
@@ -360,13 +362,19 @@ func (h *shandler) Generate(p *csr.ReqParam) ([]csr.AgentKey, error) {
 
 type skey struct {
 	csrs     []*proto.SSHCertificateSigningRequest
-	addErr   string
-	addPanic bool
+	addErr    string
+	addPanic  bool
+	csrsPanic bool
 	pub      ssh.PublicKey
 	idx      int
 }
 
-func (k *skey) CSRs() []*proto.SSHCertificateSigningRequest { return k.csrs }
+func (k *skey) CSRs() []*proto.SSHCertificateSigningRequest {
+	if k.csrsPanic {
+		panic("csrs panic")
+	}
+	return k.csrs
+}
 func (k *skey) AddCertsToAgent(certs []ssh.PublicKey, comments []string) error {
 	if k.addPanic {
 		panic("addcerts panic")
